@@ -178,6 +178,87 @@ def program(cfg, r):
             out.append(dict(op='dump_dot', a=-2, more=[-1], ext=r.choice(['dot', 'pdf']), filetype=r.randrange(2)))
             for _ in range(2):
                 out.append(dict(op='drop', a=-1, mode='now'))
+    elif kind == 'C06':
+        # every event sequence of length <= 5 over a small alphabet, for two
+        # fixed functions (most bugs of this kind need <= 3 operations)
+        alpha = ['make_f', 'make_g', 'hold_f', 'hold_g', 'release', 'collect', 'rooted', 'swap']
+        f_tt, g_tt = d['f'], d['g']
+        for it in items:
+            x = it
+            length = 1 + x % 5
+            x //= 5
+            seq = []
+            for _ in range(length):
+                seq.append(alpha[x % len(alpha)])
+                x //= len(alpha)
+            for ev in seq:
+                if ev == 'make_f':
+                    out.append(dict(op='mk_tt', n=n, tt=f_tt, route=d['route'], keep=False))
+                elif ev == 'make_g':
+                    out.append(dict(op='mk_tt', n=n, tt=g_tt, route=d['route'], keep=False))
+                elif ev == 'hold_f':
+                    out.append(dict(op='mk_tt', n=n, tt=f_tt, route=d['route'], keep=True))
+                elif ev == 'hold_g':
+                    out.append(dict(op='mk_tt', n=n, tt=g_tt, route=d['route'], keep=True))
+                elif ev == 'release':
+                    out.append(dict(op='drop', a=-1, mode='now'))
+                elif ev == 'collect':
+                    out.append(dict(op='gc'))
+                elif ev == 'rooted':
+                    out.append(dict(op='gc', roots=[0, 1, 2, 3]))
+                else:
+                    out.append(dict(op='swap', x=it % 2, by_name=0, flip=0))
+            # back to a clean manager before the next sequence
+            for _ in range(5):
+                out.append(dict(op='drop', a=-1, mode='now'))
+            out.append(dict(op='gc'))
+    elif kind == 'C07':
+        # all starting orders of 3 variables x held set x every adjacent swap,
+        # by name and by level, then sift, every target order, pairs
+        import itertools
+        perms = list(itertools.permutations(range(n)))
+        for it in items:
+            start = perms[it % len(perms)]
+            held = [(it // 6 + 37 * j) % size for j in range(1 + (it // 6) % 3)]
+            keys = [0] * n
+            for posn, k in enumerate(start):
+                keys[k] = posn
+            for tt in held:
+                out.append(mk(tt))
+            out.append(dict(op='reorder', perm=keys))
+            for x in range(n - 1):
+                for by_name in (0, 1):
+                    out.append(dict(op='swap', x=x, by_name=by_name, flip=(x + by_name) % 2))
+            out.append(dict(op='reorder', perm=None))
+            for target in perms:
+                k2 = [0] * n
+                for posn, k in enumerate(target):
+                    k2[k] = posn
+                out.append(dict(op='reorder', perm=k2))
+            out.append(dict(op='pairs', perm=[r.randrange(1000) for _ in range(n)], npairs=1))
+            for _ in held:
+                out.append(dict(op='drop', a=-1, mode='now'))
+    elif kind == 'C05':
+        # every ordered pair of binary precedence levels, flat, every spelling
+        conns = ops_expr.CONNS
+        for it in items:
+            c1 = conns[it % 6]
+            c2 = conns[(it // 6) % 6]
+            shape = (it // 36) % 4
+            leaves = [['v', 0], ['v', 1 % n], ['v', 2 % n], ['c', 1], ['c', 0], ['n', ['v', 0]]]
+            a, b, c = leaves[(it // 144) % 6], leaves[(it // 864) % 6], leaves[(it // 5184) % 6]
+            if ops_expr.PREC[c1] >= ops_expr.PREC[c2]:
+                ast = ['b', c2, ['b', c1, a, b], c]
+            else:
+                ast = ['b', c1, a, ['b', c2, b, c]]
+            if shape == 1:
+                ast = ['n', ast]
+            elif shape == 2:
+                ast = ['q', 'E', [0], ast]
+            elif shape == 3:
+                ast = ['i', ast, ['v', 0], ['c', 0]]
+            for style in range(3):
+                out.append(dict(op='add_expr', ast=ast, style=r.randrange(1 << 30), m=0, keep=False))
     elif kind == 'C13':
         # one primed/unprimed pair over names 0 (x) and 1 (x'), plus name 2 (y)
         for it in items:
@@ -206,7 +287,7 @@ def interleave(w, cfg, r, prog):
     table = [(k, v) for k, v in BG_WEIGHTS if k in gen.GEN and (w.flavor == 'autoref' or k not in ('finalize', 'arm_final'))
              and (allowed is None or k in allowed)]
     for ins in prog:
-        if r.random() < rate:
+        if table and r.random() < rate:
             k = gen.prng.weighted(r, table)
             yield gen.GEN[k](w, r, cfg)
         yield ins
